@@ -265,8 +265,46 @@ def opEsFind (iter : Bool) (args : List String) : String :=
     | none => "bad-request"
   | _ => "bad-request"
 
+/-- `search <len> <bounds> <findFrom table p:s-e|p:x,…> <ops n/b…>` → the step returned by each call -/
+def opSearch (args : List String) : String :=
+  match args with
+  | [len, bounds, ff, ops] =>
+    let parseFF (s : String) : Option (Nat × Option (Nat × Nat)) :=
+      match s.splitOn ":" with
+      | [p, "x"] => p.toNat?.map fun p => (p, none)
+      | [p, r] => match p.toNat?, parseRange r with
+        | some p, some (some rg) => some (p, some rg)
+        | _, _ => none
+      | _ => none
+    match len.toNat?, allSome ((bounds.splitOn ",").map String.toNat?), allSome ((ff.splitOn ",").map parseFF) with
+    | some len, some bounds, some ff =>
+      let ctx : Api.SearchCtx :=
+        { len := len
+          findFrom := fun p => match ff.find? (·.1 == p) with
+            | some (_, r) => r
+            | none => none
+          isBoundary := fun p => bounds.contains p
+          nextBoundary := fun e => if e ≥ len then none else bounds.find? (· > e) }
+      let opsL := ops.toList.map (· == 'n')
+      match Api.callSteps ctx opsL Api.RegexSearcher.new with
+      | .error _ => "error"
+      | .ok steps => " ".intercalate (steps.map fun
+          | .match s e => s!"M{s}-{e}"
+          | .reject s e => s!"R{s}-{e}"
+          | .done => "D")
+    | _, _, _ => "bad-request"
+  | _ => "bad-request"
+
 def answer (line : String) : String :=
   match line.trimAscii.toString.splitOn " " with
+  | ["optimize", flags, ir] => IR.optimizeLine flags ir
+  | ["startpred", flags, ir] => IR.startPredLine flags ir
+  | ["emit", flags, ir] => IR.emitLine flags ir
+  | ["semfind", flags, ir, hay, start] =>
+    (match start.toNat? with
+     | some st => IR.semFindLine flags ir hay st
+     | none => "bad-request")
+  | "search" :: args => opSearch args
   | "esfind" :: args => opEsFind false args
   | "esiter" :: args => opEsFind true args
   | "runprog" :: args => opRunProg args
